@@ -64,11 +64,15 @@ impl VarFile {
     //
     #[inline]
     pub fn sync_all(&mut self) -> Result<()> {
+        #[cfg(feature = "verif_hooks")]
+        super::super::verif::record_io(&self.buf_file.name(), "sync_all");
         self.buf_file.sync_all()
     }
     //
     #[inline]
     pub fn sync_data(&mut self) -> Result<()> {
+        #[cfg(feature = "verif_hooks")]
+        super::super::verif::record_io(&self.buf_file.name(), "sync_data");
         self.buf_file.sync_data()
     }
     //
@@ -216,6 +220,8 @@ impl Write for VarFile {
     }
     #[inline]
     fn flush(&mut self) -> Result<()> {
+        #[cfg(feature = "verif_hooks")]
+        super::super::verif::record_io(&self.buf_file.name(), "flush");
         self.buf_file.flush()
     }
 }
